@@ -116,34 +116,11 @@ theorem reSearch_at_token (body post : Str) (h : ']' ∉ body) :
 theorem drop_append_length' {α : Type} (a b : List α) : (a ++ b).drop a.length = b := by
   simp
 
-/-- **text level**: if the last `"sort"` token of the text is directly followed by `:` and a bracket-free
-    `body` closed by `]`, the extractor returns `json.loads(body ++ "]")` -/
-theorem lastSort_of_last_token (pre body post : Str) (v : Json) (hb : ']' ∉ body)
-    (hlast : ∀ k, pre.length < k → isPrefix sortTok ((pre ++ sortTok ++ ':' :: (body ++ ']' :: post)).drop k) = false)
-    (hload : jsonLoads (body ++ [']']) = .ok v) :
-    lastSort (pre ++ sortTok ++ ':' :: (body ++ ']' :: post)) = .ok (some v) := by
-  have hpre : isPrefix sortTok ((pre ++ sortTok ++ ':' :: (body ++ ']' :: post)).drop pre.length) = true := by
-    rw [List.append_assoc, drop_append_length']
-    simp [sortTok, isPrefix]
-  have hr := rfind_eq_some sortTok (by simp [sortTok]) _ pre.length hpre hlast
-  unfold lastSort
-  rw [hr]
-  simp only [sliceFrom]
-  rw [List.append_assoc, drop_append_length', reSearch_at_token body post hb]
-  simp only [hload]
-
 /-- no `"sort"` token anywhere: no cursor -/
 theorem lastSort_no_token (text : Str) (h : ∀ k, isPrefix sortTok (text.drop k) = false) : lastSort text = .ok none := by
   have hr := rfind_none sortTok (by simp [sortTok]) text h
   unfold lastSort
   rw [hr]
-  simp only [sliceFrom]
-  -- the slice is at most one character long: the 6-character literal cannot match
-  have hlen : (text.drop (text.length - 1)).length ≤ 1 := by simp; omega
-  generalize text.drop (text.length - 1) = sl at hlen
-  match sl, hlen with
-  | [], _ => simp [reSearch]
-  | [c], _ => simp [reSearch, isPrefix, sortLit]
 
 /-! ## strings: `scanstring (escape s) = s` -/
 
@@ -856,26 +833,61 @@ theorem render_arr_shape (st : Style) (hst : st.valid = true) (vals : List Json)
 theorem renderStr_sort (ascii : Bool) : renderStr ascii kSort = sortTok := by
   cases ascii <;> decide
 
-/-- **cursor, text + value level**: wherever `"sort":<flat array>` sits in a text, if that `"sort"` is the last
-    token of its kind, there is no whitespace before the colon, and no sort value contains `]`, the extractor
-    returns the array. -/
+theorem isPySpace_of_isWs (c : Char) (h : isWs c = true) : isPySpace c = true := by
+  simp only [isWs, Bool.or_eq_true, beq_iff_eq] at h
+  rcases h with ((h | h) | h) | h <;> subst h <;> decide
+
+theorem skipPySpace_append : ∀ (ws : Str) (c : Char) (r : Str), ws.all isWs = true → isPySpace c = false →
+    skipPySpace (ws ++ c :: r) = c :: r := by
+  intro ws
+  induction ws with
+  | nil => intro c r _ hc; simp [skipPySpace, hc]
+  | cons w t ih =>
+    intro c r hw hc
+    simp only [List.all_cons, Bool.and_eq_true] at hw
+    simp [skipPySpace, isPySpace_of_isWs w hw.1, ih c r hw.2 hc]
+
+/-- **cursor, text + value level** (code after commit 6007750): wherever `"sort":<flat array of scalars>` sits
+    in a text, if that `"sort"` is the last token of its kind and there is no whitespace before the colon, the
+    extractor returns the array — whatever characters the sort values contain. -/
 theorem lastSort_member (st : Style) (hst : st.valid = true) (hbc : st.beforeColon = []) (vals : List Json)
-    (hv : ∀ v ∈ vals, ScalarOK v) (hnb : ∀ v ∈ vals, ']' ∉ render st v) (pre post : Str)
+    (hv : ∀ v ∈ vals, ScalarOK v) (pre post : Str)
     (hlast : ∀ k, pre.length < k →
       isPrefix sortTok ((pre ++ memberText st kSort (.arr vals) ++ post).drop k) = false) :
     lastSort (pre ++ memberText st kSort (.arr vals) ++ post) = .ok (some (.arr vals)) := by
   have hac : st.afterColon.all isWs = true := by
     simp only [Style.valid, Bool.and_eq_true] at hst; exact hst.2
-  obtain ⟨inner, hin, hnin⟩ := render_arr_shape st hst vals hnb
+  obtain ⟨r0, hr0⟩ : ∃ r, render st (.arr vals) = '[' :: r := by
+    cases vals with
+    | nil => exact ⟨_, by simp [render]; rfl⟩
+    | cons x xs => exact ⟨_, by simp [render]; rfl⟩
   have htext : pre ++ memberText st kSort (.arr vals) ++ post =
-      pre ++ sortTok ++ ':' :: ((st.afterColon ++ '[' :: inner) ++ ']' :: post) := by
-    simp [memberText, hbc, renderStr_sort, hin]
-  rw [htext] at hlast ⊢
-  refine lastSort_of_last_token pre (st.afterColon ++ '[' :: inner) post (.arr vals) ?_ hlast ?_
-  · simp only [List.mem_append, List.mem_cons, not_or]
-    exact ⟨ws_no_bracket _ hac, by decide, hnin⟩
-  · have := jsonLoads_render_flat st hst st.afterColon hac vals hv
-    rw [hin] at this
-    simpa using this
+      (pre ++ ['"']) ++ ('s' :: 'o' :: 'r' :: 't' :: '"' :: ':' :: (st.afterColon ++ (render st (.arr vals) ++ post))) := by
+    simp [memberText, hbc, renderStr_sort, sortTok]
+  have hpre : isPrefix sortTok ((pre ++ memberText st kSort (.arr vals) ++ post).drop pre.length) = true := by
+    rw [htext, List.append_assoc, drop_append_length']
+    simp [sortTok, isPrefix]
+  have hr := rfind_eq_some sortTok (by simp [sortTok]) _ pre.length hpre hlast
+  have hdrop : (pre ++ memberText st kSort (.arr vals) ++ post).drop (pre.length + 1) =
+      's' :: 'o' :: 'r' :: 't' :: '"' :: ':' :: (st.afterColon ++ (render st (.arr vals) ++ post)) := by
+    rw [htext, show pre.length + 1 = (pre ++ ['"']).length by simp, drop_append_length']
+  have hlen : vals.length + 1 ≤ (render st (.arr vals) ++ post).length := by
+    cases vals with
+    | nil => rw [hr0]; simp only [List.cons_append, List.length_cons, List.length_nil]; omega
+    | cons x xs =>
+      have := renderElems_length st (x :: xs) hv
+      simp only [render, List.length_append, List.length_cons] at this ⊢
+      omega
+  have hskip : skipPySpace (st.afterColon ++ (render st (.arr vals) ++ post)) = render st (.arr vals) ++ post := by
+    rw [hr0]
+    exact skipPySpace_append st.afterColon '[' (r0 ++ post) hac (by decide)
+  unfold lastSort
+  rw [hr]
+  simp only [hdrop]
+  have hpfx : isPrefix sortLit ('s' :: 'o' :: 'r' :: 't' :: '"' :: ':' :: (st.afterColon ++ (render st (.arr vals) ++ post))) = true := by
+    simp [sortLit, isPrefix]
+  rw [if_pos hpfx]
+  simp only [List.drop_succ_cons, List.drop_zero, hskip]
+  rw [pValue_flat_array st hst vals hv _ hlen post]
 
 end JsonFast
